@@ -12,5 +12,6 @@ CONSTANTS
   Drivers = {"iour"}
   Impls = {"blocking", "pidfd"}
   Families = {"echo", "consumer", "producer", "exit", "status", "held"}
+  BlockingChildPipes = TRUE
 SPECIFICATION Spec
 INVARIANTS TypeOK NoDeadlockStrict
